@@ -5,6 +5,7 @@ func init() {
 		ID:    "C10",
 		Title: "String literals are HTML-escaped on output; raw() is the exact opt-out",
 		Rules: []string{
+			"R-FORMAT: every printf-like call (fmt family, and the module functions that hand a parameter on as a format: fail.New, newError, ...) gets a constant format, or the caller's own format parameter",
 			"R-CUTSET: no strings.Trim/TrimLeft/TrimRight with a constant set of several different characters on the output path (a set, not a suffix: it eats characters of the value)",
 			"R-PURE: no builtin (raw() in particular) writes through its receiver: the escaped value stays escaped in the variable it came from",
 			"R-ESCAPE: the Eval case for *ast.StringLiteral builds its Str.Value from html.EscapeString(node.Value) with exactly the two quote entities restored; html.EscapeString is called only there and html.UnescapeString only in the builtin registered as raw, which returns exactly UnescapeString(receiver); no other evaluator code turns literal text into an output value; readString removes only backslash-quote",
@@ -13,6 +14,8 @@ func init() {
 		NotDecided:  "TODO",
 		Assumptions: trustedBase,
 		Run: func(m *Model, s *Sink) {
+			m.RunObjString(s, "R-ESCAPE")                                // printing an object does not rewrite its text
+			m.RunFormat(s, "R-FORMAT", m.reachableFns(m.Roots().Render)) // no text of a template, a path or an error is used as a printf format
 			m.RunCutset(s, "R-CUTSET")
 			m.RunEscape(s, "R-ESCAPE")
 			// raw() and the other string builtins must not modify the (escaped) value they receive: it is shared with the variable
